@@ -102,7 +102,7 @@ func New(host string, opts0 *Options) (ociregistry.Interface, error) {
 	if opts.Insecure {
 		u.Scheme = "http"
 	}
-	if opts.ListPageSize == 0 {
+	if opts.ListPageSize <= 0 {
 		opts.ListPageSize = DefaultListPageSize
 	}
 	return &client{
